@@ -26,19 +26,7 @@ NormState(j) ==
    aggs |-> [p \in DOMAIN j.aggs |-> DOMAIN j.aggs[p]],
    classes |-> j.classes, ctraits |-> DOMAIN j.ctraits]
 
-\* generations erased
-NoGens(s) == [s EXCEPT !.rp = [p \in DOMAIN @ |-> [@[p] EXCEPT !.gen = 0]],
-                       !.cons = [c \in DOMAIN @ |-> [@[c] EXCEPT !.gen = 0]]]
-
-\* `got` is `want` except that generations the request moves may have moved further
-SameUpToRetriedGens(db0, want, got) ==
-  /\ NoGens(got) = NoGens(want)
-  /\ \A p \in Providers(want) :
-        IF p \in Providers(db0) /\ want.rp[p].gen = db0.rp[p].gen
-        THEN got.rp[p].gen = want.rp[p].gen ELSE got.rp[p].gen >= want.rp[p].gen
-  /\ \A c \in DOMAIN want.cons :
-        IF c \in DOMAIN db0.cons /\ want.cons[c].gen = db0.cons[c].gen
-        THEN got.cons[c].gen = want.cons[c].gen ELSE got.cons[c].gen >= want.cons[c].gen
+\* NoGens, SameUpToRetriedGens: see Props.tla
 
 Differs(a, b) ==
      (IF a.rp = b.rp THEN {} ELSE {"rp"}) \cup (IF a.inv = b.inv THEN {} ELSE {"inv"})
